@@ -28,6 +28,34 @@ def source_on_proc_grid(src_fn, ref_fn, downsampling='average'):
         return np.stack(xs), rw
 
 
+def r2_noise(src_fn, ref_fn, kernel_shape):
+    """Per processing pixel (reference grid, whole window) and source band: the rounding-noise scale of the R2 band, which the code evaluates in
+    float32 as 1 - RSS / TSS with TSS = N * sum(r^2) - sum(r)^2 from expanded kernel sums.  The subtraction cancels: its absolute error is
+    ~ eps32 * N * sum(r^2), so R2 carries noise ~ eps32 * N * sum(r^2) / TSS (large when the window holds two or three nearly equal reference
+    values).  Returned (with the reference window it covers): N * sum(r^2) / TSS in float64 over the jointly valid pixels of each kernel window (inf where TSS <= 0 or N < 2)."""
+    from homonim.raster_pair import RasterPairReader
+    from homonim.raster_array import RasterArray
+    from homonim.enums import ProcCrs
+    x, rw = source_on_proc_grid(src_fn, ref_fn)
+    with RasterPairReader(src_fn, ref_fn, proc_crs=ProcCrs.ref) as rd:
+        refs = [np.array(RasterArray.from_rio_dataset(rd._ref_im, indexes=bi, window=rw).array, dtype='float64') for bi in rd.ref_bands]
+    kh, kw = kernel_shape
+    out = []
+    for b in range(x.shape[0]):
+        r = refs[b]
+        m = ~np.isnan(x[b]) & ~np.isnan(r)
+        r = np.where(m, r, 0.0)
+
+        def box(a):
+            pad = np.pad(a, ((kh // 2, kh // 2), (kw // 2, kw // 2)))
+            return sum(pad[i:i + a.shape[0], j:j + a.shape[1]] for i in range(kh) for j in range(kw))
+        n, s1, s2 = box(m.astype('float64')), box(r), box(r * r)
+        tss = n * s2 - s1 * s1
+        with np.errstate(divide='ignore', invalid='ignore'):
+            out.append(np.where((tss > 0) & (n >= 2), n * s2 / tss, np.inf))
+    return np.stack(out), rw
+
+
 def linear_pair(work, rng, g, nbands, coeffs, smask, tag='l'):
     """Source + reference with ref = a * x + b wherever x (source on the reference grid) is valid; arbitrary valid values elsewhere."""
     src = fz.texture(rng, g.src_shape, nbands, lo=20, hi=200)
